@@ -25,6 +25,9 @@ func init() {
 }
 
 type c09Config struct {
+	// New: when non-empty the filter is built by NewFilter(elements, tweak, fprate, flags) with
+	// New = "elements:fprate" (fprate by name, see c09FPRates) instead of LoadFilter
+	New       string `json:"newfilter,omitempty"`
 	Bytes     int    `json:"filter_bytes"`
 	Prefill   int    `json:"prefill"` // byte value every filter byte starts with
 	HashFuncs uint32 `json:"hash_funcs"`
@@ -91,12 +94,28 @@ func c09EvalHistory(w *mc.W, h c09History) {
 	}
 	msg, model := mk(h.Cfg, false)
 	var f *bloom.Filter
+	if h.Cfg.New != "" {
+		var el uint32
+		var fpn string
+		fmt.Sscanf(h.Cfg.New, "%d:%s", &el, &fpn)
+		if m, p := mc.Guard(func() { f = bloom.NewFilter(el, h.Cfg.Tweak, c09FPRates[fpn], wire.BloomUpdateType(h.Cfg.Flags)) }); p {
+			fail("newfilter-panics", m)
+			return
+		}
+		msg = f.MsgFilterLoad()
+		if msg == nil || len(msg.Filter) == 0 {
+			return // empty or unloaded result: nothing to compare bit by bit (C08 covers the empty filter)
+		}
+		model = ref.NewBloom(msg.Filter, msg.HashFuncs, msg.Tweak, byte(msg.Flags))
+	}
 	var curMsg *wire.MsgFilterLoad = msg
 	var detached []*wire.MsgFilterLoad // messages no longer loaded, with their expected bytes
 	var detachedWant [][]byte
 	loaded := true
 	msgPanic, p := mc.Guard(func() {
-		f = bloom.LoadFilter(msg)
+		if f == nil {
+			f = bloom.LoadFilter(msg)
+		}
 		for step, op := range h.Ops {
 			w.Trans()
 			where := fmt.Sprintf("step %d (%s)", step, op)
@@ -413,6 +432,37 @@ func runC09(c *mc.Ctx) {
 		}
 	})
 	c.Sample("history", c09History{Cfg: hcfgs[3], Ops: []string{"add:5", "unload", "m:5"}})
+	// histories on filters built by NewFilter (incl. sizings whose hash-function count is 0 or clamped)
+	{
+		var ncfgs []c09Config
+		for _, nw := range []string{"1:0.01", "3:0.0001", "10:0.5", "100:0.6", "6:0.99", "1000000:0.0001", "20000:1e-9", "2:1"} {
+			for _, t := range []uint32{0, 0xffffffff} {
+				ncfgs = append(ncfgs, c09Config{New: nw, Tweak: t, Flags: int(t % 3)})
+			}
+		}
+		nd := 3
+		var nper int64
+		for d := 0; d <= nd; d++ {
+			nper += ipow(len(menu), d)
+		}
+		c.Space(fmt.Sprintf("histories of depth <= %d on filters built by NewFilter x %d sizings", nd, len(ncfgs)), nper*int64(len(ncfgs)))
+		c.ParFor(nper*int64(len(ncfgs)), func(w *mc.W, i int64) {
+			cfg := ncfgs[i/nper]
+			r := i % nper
+			d := 0
+			for r >= ipow(len(menu), d) {
+				r -= ipow(len(menu), d)
+				d++
+			}
+			ops := make([]string, d)
+			for k := d - 1; k >= 0; k-- {
+				ops[k] = menu[r%int64(len(menu))]
+				r /= int64(len(menu))
+			}
+			w.State()
+			c09EvalHistory(w, c09History{Cfg: cfg, Ops: ops})
+		})
+	}
 
 	// (3) MurmurHash3
 	seeds := []uint32{0, 1, 0xfba4c795, 0x7fffffff, 0x80000000, 0xffffffff}
